@@ -22,6 +22,7 @@ from __future__ import annotations
 import bisect
 import json
 import math
+import os
 import random
 import shutil
 import sys
@@ -29,7 +30,7 @@ from fractions import Fraction as Fr
 
 import numpy as np
 
-from common import SPEC, Check, MachineryError, tlc, workdir
+from common import SPEC, VERIF, Check, MachineryError, tlc, workdir
 
 ALGO = SPEC / "algo" / "MCSectionDetect.tla"
 CURVES = SPEC / "algo" / "MCSectionDetectCurves.tla"
@@ -226,7 +227,8 @@ def judge(observations, *, timeout=1500, chunk=20000):
         try:
             tf = wd / "obs.json"
             tf.write_text(json.dumps([obs_to_json(o) for o in part]))
-            r = tlc(JUDGE, CFG / "SectionDetectTrace.cfg", workers=8, env={"TRACE_FILE": str(tf)}, timeout=timeout)
+            r = tlc(JUDGE, CFG / "SectionDetectTrace.cfg", workers=8, timeout=timeout,
+                    env={"TRACE_FILE": str(tf), "JAVA_TOOL_OPTIONS": "-Xss64m"})     # recursive operators on long patterns
             if not r.ok or r.distinct != len(part):
                 raise MachineryError(f"judge run failed: ok={r.ok} distinct={r.distinct} expected={len(part)} "
                                      f"{r.error}\n{r.out[-3000:]}")
@@ -322,14 +324,14 @@ def main(tier=None, replay=None):
     rnd = random.Random(ck.seed)
 
     if replay:
-        data = json.load(open(replay))["data"]
+        rp = replay if os.path.exists(replay) else str(VERIF / replay)
+        data = json.load(open(rp))["data"]
         if data["kind"] == "pattern":
             o, times = run_pattern_case(data["case"], data["header"])
         elif data["kind"] == "curve":
             o, times = run_curve_case(data["case"])
         else:
-            print("replay of real-trajectory observations: re-run the check")
-            return 0
+            o, times = RealWorkload().case_obs(data["case"]), None
         bad, _ = judge([o])
         print(json.dumps({"case": data["case"], "hit_times": times, "observation": obs_to_json(o),
                           "verdict": bad.get(0, "ok")}, default=str)[:4000])
@@ -371,9 +373,11 @@ def main(tier=None, replay=None):
     def record(o, case):
         e = obs_index.get(o)
         if e is None:
-            obs_index[o] = [1, case]
+            obs_index[o] = [1, case, [case] if "real" in case else []]
         else:
             e[0] += 1
+            if "real" in case:
+                e[2].append(case)       # few: every real-trajectory case is kept
 
     base_cache = {}
     for pi, g in enumerate(patterns + long_patterns):
@@ -396,7 +400,9 @@ def main(tier=None, replay=None):
                         record(obs_exact(g, d, mh, pos, sflag),
                                {"g": g, "grid": gk, "d": d, "r": rr, "mh": mh, "interp": "linear", "plane": plane})
                         n_runs += 1
-                    if mh == 0:
+                    if mh == 0 and (d == 0 or not is_long):
+                        # (long patterns: without direction only -- the bracket form of the requirement
+                        # enumerates subsets of optional on-surface samples, of which long patterns have many)
                         hits = detect(times, st, plane, "cubic", 0, d, 0)
                         record(obs_bracket(g, d, 0, bracket_codes(hits, tl)),
                                {"g": g, "grid": gk, "d": d, "r": 0, "mh": 0, "interp": "cubic", "plane": plane})
@@ -456,40 +462,47 @@ def main(tier=None, replay=None):
     ck.cov["states"] += jstates
     ck.cov["traces_validated_against_impl"] += len(olist)
     ck.part("judge", observations=len(olist), rejected=len(bad), snap_tolerance=SNAP_TOL, max_snap_deviation=Dev.snap,
-            onplane_tolerance=ONPLANE_TOL, max_onplane_residual=Dev.plane)
+            onplane_tolerance=ONPLANE_TOL, max_onplane_residual=Dev.plane, state_tolerance=SNAP_TOL,
+            max_state_deviation=Dev.state, smallest_mutant_deviation="1/4 interval (mirrored or shifted hit), see report")
 
     # verdicts -> violations (smallest instance first so that the replay file is minimal)
     def size(i):
         o = olist[i]
         return (len(o[1]) if o[0] != "curve" else 100 + o[2] * 10, {"exact": 0, "bracket": 1, "curve": 2}[o[0]], str(o))
 
+    fresh_facade_bad = {(c["axis"], c["offset"], c["d"]) for i in bad for c in obs_index[olist[i]][2]
+                        if c.get("facade") and c["history"] == "fresh"}
     for i in sorted(bad, key=size):
         o = olist[i]
-        cnt, case = obs_index[o]
-        v = bad[i]
-        if "facade" in case:
-            site, kind = "SynodicMap.compute", "real"
-            if case["history"] != "fresh":
-                fresh_ok = not any(bad.get(k) for k, oo in enumerate(olist)
-                                   if "facade" in obs_index[oo][1] and obs_index[oo][1]["history"] == "fresh"
-                                   and all(obs_index[oo][1][f] == case[f] for f in ("axis", "offset", "d")))
-                if fresh_ok:
-                    v = f"direction={'None' if case['d'] == 0 else case['d']}-{case['history']}|{v}"
-        elif "real" in case:
-            site, kind = "detect_on_trajectory", "real"
+        cnt, case, real_cases = obs_index[o]
+        v0 = bad[i]
+        variants = []           # (site, kind, case, verdict)
+        if real_cases:
+            for c in real_cases:
+                if c.get("facade"):
+                    v = v0
+                    if c["history"] != "fresh" and (c["axis"], c["offset"], c["d"]) not in fresh_facade_bad:
+                        # the same request on a fresh map is answered correctly: the defect is the history
+                        v = f"direction={'None' if c['d'] == 0 else c['d']}-requested-after-another-direction|{v0}"
+                    variants.append(("SynodicMap.compute", "real", c, v))
+                elif c.get("run"):
+                    variants.append(("_SynodicDetectionBackend.run", "real", c, v0))
+                else:
+                    variants.append(("detect_on_trajectory", "real", c, v0))
         elif "curve" in case:
-            site, kind = "detect_on_trajectory", "curve"
+            variants.append(("detect_on_trajectory", "curve", case, v0))
         else:
-            site, kind = "detect_on_trajectory", "pattern"
-        desc = (f"{v}: detector output rejected by the C15 requirement (TLC judge) on {cnt} run(s); first: "
-                f"{json.dumps({k: case[k] for k in case if k not in ('curve',)}, default=str)[:300]} "
-                f"observation={json.dumps(obs_to_json(o))[:400]}")
-        if v == "cubic-hit-error-exceeds-linear-interpolation-bound" and herm_bad:
-            desc += (f" ;; cause located by the exact kernel replay: poincare/utils._hermite_der differs from the derivative "
-                     f"of _hermite_scalar on {len(herm_bad)} of {len(herm)} exact instances, e.g. {herm_bad[0]}")
-        data = {"kind": kind, "case": case, "header": {"grids": header["grids"]} if kind == "pattern" else None,
-                "verdict": v, "observation": obs_to_json(o)}
-        ck.violation(f"{site}|{v}", desc, data)
+            variants.append(("detect_on_trajectory", "pattern", case, v0))
+        for site, kind, case, v in variants:
+            desc = (f"{v}: detector output rejected by the C15 requirement (TLC judge) on {cnt} run(s); first: "
+                    f"{json.dumps({k: case[k] for k in case if k not in ('curve',)}, default=str)[:300]} "
+                    f"observation={json.dumps(obs_to_json(o))[:400]}")
+            if v == "cubic-hit-error-exceeds-linear-interpolation-bound" and herm_bad:
+                desc += (f" ;; cause located by the exact kernel replay: poincare/utils._hermite_der differs from the "
+                         f"derivative of _hermite_scalar on {len(herm_bad)} of {len(herm)} exact instances, e.g. {herm_bad[0]}")
+            data = {"kind": kind, "case": case, "header": {"grids": header["grids"]} if kind == "pattern" else None,
+                    "verdict": v, "observation": obs_to_json(o)}
+            ck.violation(f"{site}|{v}", desc, data)
     if herm_bad and not any(v == "cubic-hit-error-exceeds-linear-interpolation-bound" for v in bad.values()):
         ck.notes.append(f"_hermite_scalar/_hermite_der differ from the exact kernels on {len(herm_bad)} instances "
                         f"(no C15 clause observed to fail because of it): {herm_bad[:2]}")
@@ -509,119 +522,164 @@ def main(tier=None, replay=None):
         "distinct hits of an instance are >= 1/4 sample interval apart in time and project to distinct plane points "
         "(dedup tolerances 1e-9 / 1e-12 never merge distinct hits); dedup semantics for closer hits not decided",
         "with a direction filter an on-surface sample MUST be reported when no existing neighbour contradicts the "
-        "direction and MAY be reported when at least one neighbour agrees",
+        "direction; any on-surface sample MAY be reported (the statement's parenthesis does not say more)",
         "cubic path: judged on count/bracket/order for arbitrary patterns (segment_refine=0) and against the linear "
         "interpolation bound on analytic curves (uniform grids); super-quadratic rate not decided",
     ]
     return ck.finish()
 
 
-def real_trajectory_observations(ck, dirs):
-    """code -> spec: a propagated CR3BP orbit; sections on every axis at an offset inside the range."""
-    from hiten.algorithms.poincare.synodic.options import SynodicMapOptions
-    from hiten.algorithms.poincare.synodic.types import SynodicBackendRequest
-    from hiten.algorithms.types.options import RefineOptions, WorkerOptions
-    from hiten.system.base import System
-    from hiten.system.maps import SynodicMap
-    from hiten.system.orbits import GenericOrbit
+NAMES = ["x", "y", "z", "vx", "vy", "vz"]
 
-    system = System.from_bodies("earth", "moon")
-    l1 = system.get_libration_point(1)
+
+class _TimeOnly:
+    def __init__(self, t):
+        self.time = t
+
+
+class RealWorkload:
+    """code -> spec on real CR3BP trajectories: a propagated orbit, sections on every axis.  Every observation
+    is described by a small case record from which it can be re-run (replay)."""
+
+    def __init__(self):
+        from hiten.system.base import System
+        self.system = System.from_bodies("earth", "moon")
+        self.l1 = self.system.get_libration_point(1)
+        self._orbits = {}
+
+    def orbit(self, ti, steps):
+        key = (ti, steps)
+        if key not in self._orbits:
+            from hiten.system.orbits import GenericOrbit
+            x1 = float(self.l1.position[0])
+            ic = [np.array([x1 + 0.01, 0.0, 0.02, 0.0, 0.1, 0.05]), np.array([x1 - 0.02, 0.0, 0.01, 0.0, 0.15, 0.0])][ti]
+            orb = GenericOrbit(self.l1, initial_state=ic)
+            orb.period = 6.0
+            orb.propagate(steps=steps)
+            tr = orb.trajectory
+            self._orbits[key] = (orb, np.asarray(tr.times, dtype=float), np.asarray(tr.states, dtype=float))
+        return self._orbits[key]
+
+    @staticmethod
+    def signs(states, ax, off):
+        return [0 if abs(v) < 1e-12 else (1 if v > 0 else -1) for v in (states[:, ax] - off).tolist()]
+
+    @staticmethod
+    def plane_coords(ax):
+        return ("y", "vy") if ax not in (1, 4) else ("x", "vx")
+
+    def direct_obs(self, case):
+        _, times, states = self.orbit(case["traj"], case["steps"])
+        ax, off, d = NAMES.index(case["axis"]), case["offset"], case["d"]
+        normal = np.zeros(6)
+        normal[ax] = 1.0
+        hits = backend().detect_on_trajectory(
+            times, states, normal=normal, offset=off, plane_coords=self.plane_coords(ax), interp_kind=case["interp"],
+            segment_refine=case["r"], direction=(None if d == 0 else d))
+        sflag = ""
+        if case["interp"] == "linear":
+            for h in hits:
+                res = abs(float(np.dot(normal, h.state) - off))
+                if res > ONPLANE_TOL:
+                    sflag = "hit-state-off-plane"
+                else:
+                    Dev.plane = max(Dev.plane, res)
+        return obs_bracket(self.signs(states, ax, off), d, 0, bracket_codes(hits, times.tolist()), sflag)
+
+    def facade_obs(self, case, smap=None):
+        """SynodicMap.compute (service + pipeline + engine + interface + backend.run); case["seq"] is the sequence of
+        directions requested from ONE map object, the observation is the answer to the last request."""
+        from hiten.algorithms.poincare.synodic.options import SynodicMapOptions
+        from hiten.algorithms.types.options import RefineOptions, WorkerOptions
+        from hiten.system.maps import SynodicMap
+        orb, times, states = self.orbit(case["traj"], case["steps"])
+        ax, off = NAMES.index(case["axis"]), case["offset"]
+        opt = SynodicMapOptions(
+            refine=RefineOptions(segment_refine=1, tol_on_surface=1e-12, dedup_time_tol=1e-9, dedup_point_tol=1e-12,
+                                 max_hits_per_traj=None, newton_max_iter=4),
+            workers=WorkerOptions(n_workers=1))
+        todo = case["seq"]
+        if smap is None:
+            smap = SynodicMap(orb)
+        else:
+            todo = todo[-1:]            # the earlier requests were already made on this map
+        for d in todo:
+            res = smap.compute(section_axis=case["axis"], section_offset=off, plane_coords=self.plane_coords(ax),
+                               direction=(None if d == 0 else d), options=opt)
+        d = case["seq"][-1]
+        ts = [] if res.times is None else list(np.asarray(res.times, dtype=float))
+        return obs_bracket(self.signs(states, ax, off), d, 0, bracket_codes([_TimeOnly(t) for t in ts], times.tolist()), ""), smap
+
+    def run_obs(self, case):
+        """backend.run with two trajectories: per-trajectory order, labelling, flattened arrays."""
+        from hiten.algorithms.poincare.synodic.types import SynodicBackendRequest
+        _, times, states = self.orbit(case["traj"], case["steps"])
+        n = len(times)
+        req = SynodicBackendRequest(
+            trajectories=[(times, states), (times[: n // 2], states[: n // 2])], normal=np.eye(6)[1],
+            trajectory_indices=[7, 3], offset=0.0, plane_coords=("x", "vx"), interp_kind="linear", segment_refine=0,
+            tol_on_surface=1e-12, dedup_time_tol=1e-9, dedup_point_tol=1e-12, max_hits_per_traj=None,
+            newton_max_iter=4, direction=None)
+        resp = backend().run(req)
+        sg = self.signs(states, 1, 0.0)
+        k = case["which"]
+        hl, lab, m = resp.hits[k], (7, 3)[k], (n, n // 2)[k]
+        sflag = "" if all(h.trajectory_index == lab for h in hl) else "trajectory-index-mislabelled"
+        flat = [] if resp.times is None else [float(t) for t in resp.times]
+        if flat != [float(h.time) for hs in resp.hits for h in hs]:
+            sflag = sflag or "flattened-times-differ-from-per-trajectory-hits"
+        return obs_bracket(sg[:m], 0, 0, bracket_codes(hl, times.tolist()[:m]), sflag)
+
+    def case_obs(self, case):
+        if case.get("facade"):
+            return self.facade_obs(case)[0]
+        if case.get("run"):
+            return self.run_obs(case)
+        return self.direct_obs(case)
+
+
+def real_trajectory_observations(ck, dirs):
+    wl = RealWorkload()
+    steps = 400 if ck.quick else 800
     out = []
-    ics = [np.array([l1.position[0] + 0.01, 0.0, 0.02, 0.0, 0.1, 0.05])]
-    if not ck.quick:
-        ics.append(np.array([l1.position[0] - 0.02, 0.0, 0.0, 0.0, 0.15, 0.0]))
-    names = ["x", "y", "z", "vx", "vy", "vz"]
     n_calls = 0
-    for ti, ic in enumerate(ics):
-        orb = GenericOrbit(l1, initial_state=ic)
-        orb.period = 6.0
-        orb.propagate(steps=400 if ck.quick else 800)
-        tr = orb.trajectory
-        times = np.asarray(tr.times, dtype=float)
-        states = np.asarray(tr.states, dtype=float)
-        tl = times.tolist()
+    for ti in ((0,) if ck.quick else (0, 1)):
+        _, times, states = wl.orbit(ti, steps)
         for ax in range(6):
             col = states[:, ax]
             offs = [float(col[0]), float(np.round(np.median(col), 3))]     # first sample exactly on the surface; generic level
             for off in offs:
-                gall = col - off
-                signs = [0 if abs(v) < 1e-12 else (1 if v > 0 else -1) for v in gall.tolist()]
-                normal = np.zeros(6)
-                normal[ax] = 1.0
-                pc = ("y", "vy") if ax not in (1, 4) else ("x", "vx")
+                base = {"real": True, "traj": ti, "steps": steps, "axis": NAMES[ax], "offset": off}
                 for d in dirs:
                     for interp in ("linear", "cubic"):
                         for rr in ((0, 1) if ck.quick else (0, 1, 2)):
                             if interp == "cubic" and rr > 0:
                                 continue        # cubic sub-interval scanning may legitimately find extra crossings
-                            hits = backend().detect_on_trajectory(
-                                times, states, normal=normal, offset=off, plane_coords=pc, interp_kind=interp,
-                                segment_refine=rr, direction=(None if d == 0 else d))
+                            case = dict(base, d=d, interp=interp, r=rr)
+                            out.append((wl.direct_obs(case), case))
                             n_calls += 1
-                            sflag = ""
-                            if interp == "linear":
-                                for h in hits:
-                                    res = abs(float(np.dot(normal, h.state) - off))
-                                    if res > ONPLANE_TOL:
-                                        sflag = "hit-state-off-plane"
-                                    else:
-                                        Dev.plane = max(Dev.plane, res)
-                            out.append((obs_bracket(signs, d, 0, bracket_codes(hits, tl), sflag),
-                                        {"real": True, "traj": ti, "axis": names[ax], "offset": off, "d": d,
-                                         "interp": interp, "r": rr}))
-                # facade: SynodicMap.compute (engine + interface + backend.run), segment_refine >= 1 required there.
-                # (a) a fresh map per call; (b) one map asked for several directions in a row (the property
-                # speaks about the REQUESTED direction of each call)
                 if ti == 0:
-                    opt = SynodicMapOptions(
-                        refine=RefineOptions(segment_refine=1, tol_on_surface=1e-12, dedup_time_tol=1e-9,
-                                             dedup_point_tol=1e-12, max_hits_per_traj=None, newton_max_iter=4),
-                        workers=WorkerOptions(n_workers=1))
-
-                    class _H:
-                        def __init__(self, t):
-                            self.time = t
-
-                    def facade_obs(smap, d, hist):
-                        res = smap.compute(section_axis=names[ax], section_offset=off, plane_coords=pc,
-                                           direction=(None if d == 0 else d), options=opt)
-                        ts = [] if res.times is None else list(np.asarray(res.times, dtype=float))
-                        return (obs_bracket(signs, d, 0, bracket_codes([_H(t) for t in ts], tl), ""),
-                                {"real": True, "facade": True, "history": hist, "traj": ti, "axis": names[ax],
-                                 "offset": off, "d": d})
+                    # (a) a fresh map per request; (b) one map asked for several directions in a row (the property
+                    # speaks about the REQUESTED direction of each call)
                     for d in dirs:
-                        out.append(facade_obs(SynodicMap(orb), d, "fresh"))
+                        case = dict(base, facade=True, history="fresh", seq=[d], d=d)
+                        out.append((wl.facade_obs(case)[0], case))
                         n_calls += 1
                     if off == offs[-1]:
-                        sm = SynodicMap(orb)
-                        prev = "fresh"
+                        smap, seq = None, []
                         for d in (1, 0, -1, 0):
-                            out.append(facade_obs(sm, d, "after-direction=" + str(prev)))
-                            prev = {0: "None"}.get(d, d)
+                            hist = "fresh" if not seq else "after-direction=" + ("None" if seq[-1] == 0 else str(seq[-1]))
+                            seq = seq + [d]
+                            case = dict(base, facade=True, history=hist, seq=list(seq), d=d)
+                            o, smap = wl.facade_obs(case, smap)
+                            out.append((o, case))
                             n_calls += 1
-        # backend.run with two trajectories: per-trajectory order and labelling
-        req = SynodicBackendRequest(
-            trajectories=[(times, states), (times[: len(tl) // 2], states[: len(tl) // 2])], normal=np.eye(6)[1],
-            trajectory_indices=[7, 3], offset=0.0, plane_coords=("x", "vx"), interp_kind="linear", segment_refine=0,
-            tol_on_surface=1e-12, dedup_time_tol=1e-9, dedup_point_tol=1e-12, max_hits_per_traj=None,
-            newton_max_iter=4, direction=None)
-        resp = backend().run(req)
-        n_calls += 1
-        gy = states[:, 1]
-        signs = [0 if abs(v) < 1e-12 else (1 if v > 0 else -1) for v in gy.tolist()]
-        for hl, lab, m in zip(resp.hits, (7, 3), (len(tl), len(tl) // 2)):
-            sflag = "" if all(h.trajectory_index == lab for h in hl) else "trajectory-index-mislabelled"
-            out.append((obs_bracket(signs[:m], 0, 0, bracket_codes(hl, tl[:m]), sflag),
-                        {"real": True, "run": True, "traj": ti, "label": lab}))
-        flat = [] if resp.times is None else [float(t) for t in resp.times]
-        if flat != [float(h.time) for hl in resp.hits for h in hl]:
-            out.append((obs_bracket(signs, 0, 0, (), "flattened-times-differ-from-per-trajectory-hits"),
-                        {"real": True, "run": True, "traj": ti, "label": -1}))
+        for which in (0, 1):
+            case = {"real": True, "run": True, "traj": ti, "steps": steps, "which": which}
+            out.append((wl.run_obs(case), case))
+            n_calls += 1
     ck.cov["evaluations"] += n_calls
-    ck.part("real_trajectories", trajectories=len(ics), detector_calls=n_calls, observations=len(out))
-    for _ in range(len(out)):
-        pass
+    ck.part("real_trajectories", trajectories=1 if ck.quick else 2, detector_calls=n_calls, observations=len(out))
     ck.count(("real", len(out)), True, n=0)
     return out
 
@@ -639,7 +697,7 @@ def selftest(ck, olist, bad, rnd, obs_index):
             if p[2] != 0 and p[2] in roots and roots[p[2]]["mono"]:
                 return k
         return None
-    cu = [o for o in good if o[0] == "curve" and o[3] == "uni" and bounded_cross_hit(o) is not None]
+    cu = [o for o in good if o[0] == "curve" and o[3] == "uni" and o[4] == 0 and bounded_cross_hit(o) is not None]
     if not ex or not br or not cu:
         raise MachineryError("self-test: no accepted observation with >= 2 hits to corrupt")
     e, b, c = rnd.choice(ex), rnd.choice(br), rnd.choice(cu)
